@@ -393,10 +393,26 @@ func RunCheck(p Property, opt Options) int {
 // (ALL-TASKS-WAIT, DEADLOCK) and the oracles judge the dead world as usual.
 func judge(p Property, sc *scen.Scenario, run *Run, env *Env) []Violation {
 	if run != nil && bytes.Contains(run.Stderr, []byte("all goroutines are asleep - deadlock!")) &&
-		!bytes.Contains(run.Stderr, []byte("verif: ALL-TASKS-WAIT")) && !bytes.Contains(run.Stderr, []byte("verif: DEADLOCK")) {
+		!bytes.Contains(run.Stderr, []byte("verif: ALL-TASKS-WAIT")) && !bytes.Contains(run.Stderr, []byte("verif: DEADLOCK")) && tasksWereParked(sc, run) {
 		return []Violation{{Rule: "HARNESS.blocking", Witness: "unseen-primitive", Detail: "a caller task blocked in a primitive the scheduler does not see while the other tasks were parked by the simulator"}}
 	}
 	return p.Check(sc, run, env)
+}
+
+// tasksWereParked: the world died while several caller tasks existed, so some of them may have been held parked by
+// the simulator. With one task at most, or in the set-up and tail phases, nobody is parked: a deadlock the runtime
+// reports there is the library's own.
+func tasksWereParked(sc *scen.Scenario, run *Run) bool {
+	if sc == nil || len(sc.Tasks) <= 1 {
+		return false
+	}
+	last := ""
+	for i := range run.Events {
+		if run.Events[i].K == "op" {
+			last = run.Events[i].Ph
+		}
+	}
+	return last == "task"
 }
 
 func allowedDeath(p Property, eo episodeOut) bool {
